@@ -235,7 +235,16 @@ def run_property(prop, tier, seed, replay=None):
 
     # extra, property specific checks (exhaustive sweeps, second build variants, runtime parts)
     if hasattr(mod, "extra"):
-        mod.extra(ctx, exe)
+        try:
+            mod.extra(ctx, exe)
+        except CheckError:
+            raise
+        except Exception as e:
+            # output of the implementation that the property-specific judge cannot even digest is not an
+            # infrastructure error: the run is reported as "no longer shown to hold"
+            import traceback
+            broken.append("property-specific step (%s.extra) could not digest the implementation's output: %s | %s"
+                          % (mod.ID, e, traceback.format_exc().strip().split("\n")[-3:]))
 
     # known findings: replay each listed one; print KNOWN-FINDING if it still reproduces
     for sig, k in known_active.items():
